@@ -171,6 +171,11 @@ def gen_doc(rng):
             els[ci]["signed_by"] = els[cyc[(j + 1) % len(cyc)]]["name"]
         els[t_i]["signed_by"] = els[cyc[0]]["name"]
         targets = [els[t_i]["name"]] + targets[:1]
+    if v2 and els and rng.random() < 0.08:
+        # the root certificate bundled into the file as a self-signed element named like the root of trust
+        els.append({"name": root, "type": "x509_pem", "signed_by": root, "message": "QUJD"})
+        if rng.random() < 0.5:
+            targets = targets + [root]
     doc = {"version": 2 if v2 else 1, "targets": targets, "elements": els}
     for _ in range(rng.choice([0, 0, 0, 1, 1, 2])):
         m = rng.random()
@@ -331,12 +336,55 @@ def run(ctx):
                 res["samples"].append({"doc": text[:600], "results": repr(obs.get("results"))[:200]})
     finally:
         unpatch(saved)
+    real_links_pass(ctx, res, tmp)
     cmp_n, mism, errs = funcases.run(ctx, "c16", certs.HEADER, "check_ccase", terms, descs, shard=60)
     res["compared"] = cmp_n
     res["mismatches"] += mism
     res["corr_errors"] += errs
     res["distribution"] = dist
     return res
+
+
+def real_links_pass(ctx, res, tmp):
+    """the same kind of documents through the REAL link checks (signatures are garbage, so every link
+    fails): loading and validating must still terminate with a verdict for every target"""
+    import certs_v2
+    from admin.certificate import HSMCertificateRoot, HSMCertificateV2ElementX509
+    rng = ctx["rng"]
+    k = certs.K1Key(rng)
+    rk = certs_v2.new_key(rng)
+    root_b64 = certs_v2.b64der(certs_v2.make_cert(rng, "SGX Root CA", "SGX Root CA", rk, rk))
+    n = 150 if ctx["tier"] == "quick" else 3000
+    hangs = 0
+    for i in range(n):
+        doc = gen_doc(rng)
+        v2doc = isinstance(doc, dict) and doc.get("version") == 2
+
+        def root():
+            if v2doc:
+                return HSMCertificateV2ElementX509({"name": "sgx_root", "message": root_b64,
+                                                    "signed_by": "sgx_root"})
+            return HSMCertificateRoot(k.pub().hex())
+        res["evaluations"] += 1
+        try:
+            obs = with_budget(5.0, lambda: certs.impl_load_validate(doc, root, tmp, with_resave=False))
+        except Hang:
+            res["violations"].append({"key": "C16:hang", "what": "loading / validating (real link checks) did "
+                                      "not terminate within 5 s", "doc": doc})
+            hangs += 1
+            if hangs >= 3:
+                break
+            continue
+        if not obs["loaded"]:
+            continue
+        cert = obs.pop("cert")
+        for tg, r in zip(cert._targets, obs["results"]):
+            if r[0] == "raises":
+                kind = type(cert._elements[tg]).__name__
+                res["violations"].append({"key": "C16:no-verdict-real:%s:%s" % (kind, r[1]),
+                                          "what": "validation with the real link checks raised %s instead of "
+                                                  "giving a verdict for target %r (element class %s)"
+                                                  % (r[1], tg, kind), "doc": doc})
 
 
 def comparable(rs):
